@@ -28,7 +28,7 @@ Proof. by move=> b0; apply: Nat.div_mul => E; rewrite E in b0. Qed.
 (* ------------------------------------------------------------------ *)
 (* Woodbury and the matrix determinant lemma, general U, V, invertible R *)
 Section Woodbury.
-Variable F : fieldType.
+Variable F : realFieldType.
 Variables (d k : nat) (R : 'M[F]_d) (U : 'M[F]_(d,k)) (V : 'M[F]_(k,d)).
 Hypothesis uR : R \in unitmx.
 
@@ -207,10 +207,8 @@ Proof.
 move=> Hoff ir jn; elim: cnt => [|cnt IH]; first by rewrite mul0n ltn0.
 rewrite List.seq_S List.fold_left_app /= get_set_block // IH Hoff leq0n add0n ir /= subn0.
 rewrite blk_div -!ltn_divLR // ltnS.
-case: (ltngtP (j %/ bs)%N cnt) => [lt|gt|E].
-- by rewrite (ltnW lt).
-- by rewrite leqNgt gt.
-- by rewrite -E leqnn blk_mod.
+case: (ltngtP (j %/ bs)%N cnt) => [lt|gt|E] //.
+by rewrite -E blk_mod.
 Qed.
 
 (* blocks on the diagonal: block t at rows and columns [t*bs, t*bs+bs) *)
@@ -224,14 +222,351 @@ Proof.
 move=> Hoff ir jn; elim: cnt => [|cnt IH].
   by rewrite mul0n ltn0 /= /mx_get; case: insub => // a; case: insub => // c; rewrite mxE.
 rewrite List.seq_S List.fold_left_app /= get_set_block // IH Hoff -andbA !blk_div -!ltn_divLR // !ltnS.
-case: (ltngtP (i %/ bs)%N cnt) => [lt|gt|E] /=.
-- case: (ltngtP (j %/ bs)%N cnt) => [lt2|gt2|E2] //=.
-  by rewrite E2 (gtn_eqF lt).
-- by [].
-- rewrite E; case: (ltngtP (j %/ bs)%N cnt) => [lt2|gt2|E2] //=.
-  + by rewrite eq_sym (ltn_eqF lt2).
-  + by rewrite eq_sym (gtn_eqF gt2).
-  + by rewrite -{1}E -{1}E2 !blk_mod eqxx.
+case: (ltngtP (i %/ bs)%N cnt) => [lt|gt|E] /=; case: (ltngtP (j %/ bs)%N cnt) => [lt2|gt2|E2] //=.
+- by rewrite E2 (ltn_eqF lt).
+- by rewrite E (gtn_eqF lt2).
+- by rewrite E E2 eqxx -{2}E -{2}E2 !blk_mod.
 Qed.
 
 End Assembly.
+
+(* ------------------------------------------------------------------ *)
+(* The factorised log-density at the MathComp instance                 *)
+Section UVRModel.
+Variable F : realFieldType.
+Variable tr : Transc F.
+Variable sq : forall n, 'M[F]_n -> 'M[F]_n.
+Variable eg : forall n, 'M[F]_n -> 'M[F]_(n,1).
+Let O := MxMat tr sq eg.
+Variables (bs nb k b rc : nat).
+Hypothesis bs0 : (0 < bs)%N.
+Notation d := (nb * bs)%N.
+
+Variables (input : M O d b) (mean : M O d 1) (U : M O d k) (V : M O k d) (R : M O bs rc).
+
+(* block t of R as the code reads it: R itself in the shared encoding *)
+Definition blk (t : nat) : 'M[F]_bs :=
+  if (rc == bs)%N then uvr_R_single (O:=O) R else uvr_R_block (O:=O) R t.
+
+Lemma mul_BD r (X : 'M[F]_(r, d)) (G : nat -> 'M[F]_bs) (Y : nat -> 'M[F]_(r, bs)) :
+  (forall t i l, (t < nb)%N -> (i < r)%N -> (l < bs)%N ->
+     mx_get (Y t) i l = mx_get X i (t * bs + l)%N) ->
+  forall (i : 'I_r) (j : 'I_d),
+    (X *m BD nb G) i j = mx_get (Y (j %/ bs)%N *m G (j %/ bs)%N) i (j %% bs)%N.
+Proof.
+move=> HY i j.
+have jb : (j %/ bs < nb)%N by rewrite ltn_divLR.
+rewrite mxE.
+pose Fn (q : nat) := mx_get X i q *
+  (if (q %/ bs == j %/ bs)%N then mx_get (G (q %/ bs)%N) (q %% bs)%N (j %% bs)%N else 0).
+rewrite (eq_bigr (fun q : 'I_d => Fn q)); last by move=> q _; rewrite /Fn mx_get_ord mxE.
+have dv c (l : 'I_bs) : ((c * bs + l) %/ bs)%N = c by rewrite divnMDl // divn_small ?addn0.
+have md c (l : 'I_bs) : ((c * bs + l) %% bs)%N = l by rewrite modnMDl modn_small.
+rewrite (sum_blocks bs nb Fn) (bigD1 (Ordinal jb)) //= [X in _ + X]big1 ?addr0; last first.
+  move=> c; rewrite -val_eqE /= => ne; apply: big1 => l _.
+  by rewrite /Fn dv (negbTE ne) mulr0.
+rewrite mx_get_mul // ?ltn_pmod //; apply: eq_bigr => l _.
+by rewrite /Fn dv md eqxx HY.
+Qed.
+
+Lemma dv c (l : nat) : (l < bs)%N -> ((c * bs + l) %/ bs)%N = c.
+Proof. by move=> lb; rewrite divnMDl // divn_small ?addn0. Qed.
+Lemma md c (l : nat) : (l < bs)%N -> ((c * bs + l) %% bs)%N = l.
+Proof. by move=> lb; rewrite modnMDl modn_small. Qed.
+Lemma in_blk t l : (t < nb)%N -> (l < bs)%N -> (t * bs + l < d)%N.
+Proof.
+move=> tn lb; apply: (@leq_trans (t.+1 * bs)%N); first by rewrite mulSnr ltn_add2l.
+by rewrite leq_mul2r tn orbT.
+Qed.
+
+Lemma mx_get0 m n i j : mx_get (0 : 'M[F]_(m,n)) i j = 0.
+Proof. by rewrite /mx_get; case: insub => // a; case: insub => // c; rewrite mxE. Qed.
+
+(* inv_R holds the inverses of the blocks side by side *)
+Lemma inv_R_get (i j : nat) : (i < bs)%N -> (j < d)%N ->
+  mx_get (uvr_inv_R (O:=O) d nb R) i j = mx_get (invmx (blk (j %/ bs)%N)) i (j %% bs)%N.
+Proof.
+move=> ib jd; rewrite /uvr_inv_R /blk eqb_eqn; case: ifP => _.
+- by rewrite (@fold_rowblocks _ tr sq eg bs bs0 bs d nb (fun t => bs * t)%N
+               (fun _ => invmx (uvr_R_single (O:=O) R)) 0 i j) ?jd // => t; rewrite mulnC.
+- by rewrite (@fold_rowblocks _ tr sq eg bs bs0 bs d nb (fun t => bs * t)%N
+               (fun t => invmx (uvr_R_block (O:=O) R t)) 0 i j) ?jd // => t; rewrite mulnC.
+Qed.
+
+Lemma inv_R_slice t : (t < nb)%N ->
+  mslice (O:=O) 0 (bs * t) bs bs (uvr_inv_R (O:=O) d nb R) = invmx (blk t).
+Proof.
+move=> tn; apply/matrixP => i j.
+by rewrite mxE /= !plusE ?multE [(bs * t)%N]mulnC inv_R_get ?in_blk // dv // md // mx_get_ord.
+Qed.
+
+Let Ri := BD nb (fun t => invmx (blk t)).
+
+Lemma V_inv_R_eq : uvr_V_inv_R (O:=O) V (uvr_inv_R (O:=O) d nb R) = V *m Ri.
+Proof.
+apply/matrixP => i j; rewrite -mx_get_ord /uvr_V_inv_R div_mulK //.
+rewrite (@fold_rowblocks _ tr sq eg bs bs0 k d nb (fun t => t * bs)%N
+          (fun t => mslice (O:=O) 0 (t * bs) k bs V *m
+                    mslice (O:=O) 0 (bs * t) bs bs (uvr_inv_R (O:=O) d nb R)) 0 i j) //.
+rewrite ltn_ord inv_R_slice ?ltn_divLR //.
+rewrite (@mul_BD k V _ (fun t => mslice (O:=O) 0 (t * bs) k bs V)) // => t i0 l tn ik lb.
+by rewrite /mslice /= mx_get_build.
+Qed.
+
+Lemma dT_inv_R_eq (diff : M O d b) :
+  uvr_diffT_inv_R (O:=O) nb diff (uvr_inv_R (O:=O) d nb R) = diff^T *m Ri.
+Proof.
+apply/matrixP => i j; rewrite -mx_get_ord /uvr_diffT_inv_R.
+rewrite (@fold_rowblocks _ tr sq eg bs bs0 b d nb (fun t => t * bs)%N
+          (fun t => (mslice (O:=O) (t * bs) 0 bs b diff)^T *m
+                    mslice (O:=O) 0 (bs * t) bs bs (uvr_inv_R (O:=O) d nb R)) 0 i j) //.
+rewrite ltn_ord inv_R_slice ?ltn_divLR //.
+rewrite (@mul_BD b diff^T _ (fun t => (mslice (O:=O) (t * bs) 0 bs b diff)^T)) // => t i0 l tn ik lb.
+by rewrite !mx_get_tr /mslice /= mx_get_build.
+Qed.
+
+(* the spec-level assembly is the block-diagonal matrix of the blocks *)
+Lemma blockdiag_BD : blockdiag (O:=O) d R = BD nb blk.
+Proof.
+apply/matrixP => i j; rewrite -mx_get_ord /blockdiag div_mulK //.
+rewrite (@fold_diagblocks _ tr sq eg bs bs0 d nb (fun t => bs * t)%N
+          (fun t => if Nat.eqb rc bs then uvr_R_single (O:=O) R else uvr_R_block (O:=O) R t) i j) //;
+  last by move=> t; rewrite mulnC.
+by rewrite !ltn_ord /= mxE /blk eqb_eqn.
+Qed.
+
+Lemma spow_exp (x : F) n : spow (Sc:=FOps tr) x n = x ^+ n.
+Proof. by elim: n => [|n IH] //=; rewrite IH exprS. Qed.
+
+Lemma fold_prod (f : nat -> F) n :
+  List.fold_left (fun acc i => acc * f i) (List.seq 0 n) 1 = \prod_(i < n) f i.
+Proof.
+elim: n => [|n IH]; first by rewrite big_ord0.
+by rewrite List.seq_S List.fold_left_app /= IH big_ord_recr.
+Qed.
+
+Lemma det_R_eq : uvr_det_R (O:=O) nb R = \prod_(t < nb) \det (blk t).
+Proof.
+rewrite /uvr_det_R /blk eqb_eqn; case: ifP => _.
+- by rewrite spow_exp prodr_const card_ord.
+- exact: fold_prod.
+Qed.
+
+(* ---- block-diagonal R: invertibility, inverse, determinant (premise: the blocks) ---- *)
+Hypothesis uB : forall t, (t < nb)%N -> blk t \in unitmx.
+
+Lemma Rd_unit : (blockdiag (O:=O) d R : 'M[F]_d) \in unitmx.
+Proof. by rewrite blockdiag_BD; case: (BD_inverse uB). Qed.
+
+Lemma Rd_inv : invmx (blockdiag (O:=O) d R : 'M[F]_d) = Ri.
+Proof. by rewrite blockdiag_BD; case: (BD_inverse uB). Qed.
+
+Lemma Rd_det : \det (blockdiag (O:=O) d R : 'M[F]_d) = uvr_det_R (O:=O) nb R.
+Proof. by rewrite blockdiag_BD BD_det det_R_eq. Qed.
+
+Lemma capacitance_eq :
+  uvr_I_V_inv_R_U (O:=O) (uvr_V_inv_R (O:=O) V (uvr_inv_R (O:=O) d nb R)) U
+  = 1%:M + V *m invmx (blockdiag (O:=O) d R : 'M[F]_d) *m U.
+Proof. by rewrite /uvr_I_V_inv_R_U /= V_inv_R_eq Rd_inv. Qed.
+
+Lemma uvr_det_S_eq : uvr_det_S (O:=O) U V R = \det (assembled_S (O:=O) U V R : 'M[F]_d).
+Proof.
+rewrite /uvr_det_S div_mulK // capacitance_eq /assembled_S /= -Rd_det.
+by rewrite (det_lemma U V Rd_unit).
+Qed.
+
+Hypothesis uS : (assembled_S (O:=O) U V R : 'M[F]_d) \in unitmx.
+
+Lemma uvr_capacitance_unit :
+  (uvr_I_V_inv_R_U (O:=O) (uvr_V_inv_R (O:=O) V (uvr_inv_R (O:=O) d nb R)) U : 'M[F]_k) \in unitmx.
+Proof. rewrite capacitance_eq; exact: (capacitance_unit Rd_unit uS). Qed.
+
+Lemma mcol_ord m n (X : 'M[F]_(m,n)) i (lt : (i < n)%N) : mcol (O:=O) i X = col (Ordinal lt) X.
+Proof. by apply/matrixP => r c; rewrite !mxE /= (mx_get_ord X r (Ordinal lt)). Qed.
+
+Lemma mrow_ord m n (X : 'M[F]_(m,n)) i (lt : (i < m)%N) : mrow (O:=O) i X = row (Ordinal lt) X.
+Proof. by apply/matrixP => r c; rewrite !mxE /= (mx_get_ord X (Ordinal lt) c). Qed.
+
+Lemma col_colwise_sub i (lt : (i < b)%N) :
+  col (Ordinal lt) (mcolwise_sub (O:=O) input mean) = col (Ordinal lt) (input : 'M[F]_(d,b)) - mean.
+Proof.
+apply/matrixP => r c; rewrite !mxE /=.
+by rewrite (mx_get_ord input r (Ordinal lt)) (mx_get_ord mean r ord0) [c]ord1.
+Qed.
+
+Lemma uvr_eq_direct i : (i < b)%N ->
+  List.nth i (log_density_uvr (O:=O) input mean U V R) 0 =
+  log_density (O:=O) (mcol (O:=O) i input) mean (assembled_S (O:=O) U V R).
+Proof.
+move=> ib; rewrite /log_density_uvr div_mulK //.
+set f := (fun i0 : nat => gauss_log_value _ _ _).
+rewrite (List.nth_indep _ 0 (f 0%N)); last by rewrite List.map_length List.seq_length; apply/ssrnat.ltP.
+rewrite List.map_nth List.seq_nth; last exact/ssrnat.ltP.
+rewrite /f {f} -[(0 + i)%coq_nat]/i.
+set A := smul _ _ _; set B := uvr_weighted_diff _ _ _ _ _ _.
+have -> : A = mdet (assembled_S (O:=O) U V R).
+  by rewrite /A -[RHS]uvr_det_S_eq /uvr_det_S div_mulK.
+suff -> : B = quadform (msub (mcol (O:=O) i input) mean) (minv (assembled_S (O:=O) U V R)) by [].
+rewrite /B /uvr_weighted_diff /quadform capacitance_eq V_inv_R_eq dT_inv_R_eq -Rd_inv.
+rewrite (mrow_ord _ ib) !(mcol_ord _ ib) row_mul -tr_col col_colwise_sub.
+congr (mx_get _ 0 0).
+exact: (esym (@woodbury_quadform _ _ _ _ U V Rd_unit uS (col (Ordinal ib) (input : 'M[F]_(d,b)) - (mean : 'cV[F]_d)))).
+Qed.
+
+End UVRModel.
+
+(* ------------------------------------------------------------------ *)
+(* Statements in terms of the model only (per-block / shared encodings,
+   block-diagonal inverse and determinant, density = exp, definition)   *)
+Section Statements.
+Variable F : realFieldType.
+Variable tr : Transc F.
+Variable sq : forall n, 'M[F]_n -> 'M[F]_n.
+Variable eg : forall n, 'M[F]_n -> 'M[F]_(n,1).
+Let O := MxMat tr sq eg.
+Variables (bs nb k b : nat).
+Hypothesis bs0 : (0 < bs)%N.
+Notation d := (nb * bs)%N.
+Variables (input : M O d b) (mean : M O d 1) (U : M O d k) (V : M O k d).
+
+Lemma single_id (R : 'M[F]_bs) : uvr_R_single (O:=O) R = R.
+Proof. by apply/matrixP => i j; rewrite mxE /= mx_get_ord. Qed.
+
+Lemma blk_shared (R : M O bs bs) t : blk (tr:=tr) (sq:=sq) (eg:=eg) R t = R.
+Proof. by rewrite /blk eqxx single_id. Qed.
+
+Lemma blk_per_block (R : M O bs d) t : (t < nb)%N ->
+  blk (tr:=tr) (sq:=sq) (eg:=eg) R t = uvr_R_block (O:=O) R t.
+Proof.
+move=> tn; rewrite /blk; case: ifP => // /eqP E.
+have nb1 : nb = 1%N by apply/eqP; rewrite -(eqn_pmul2r bs0) mul1n E.
+have t0 : t = 0%N by apply/eqP; rewrite -leqn0 -ltnS -nb1.
+by rewrite t0 /uvr_R_block /uvr_R_single multE muln0.
+Qed.
+
+(* R given as all its diagonal blocks side by side *)
+Lemma uvr_eq_direct_per_block (R : M O bs d) :
+  (forall t, (t < nb)%N -> (uvr_R_block (O:=O) R t : 'M[F]_bs) \in unitmx) ->
+  (assembled_S (O:=O) U V R : 'M[F]_d) \in unitmx ->
+  forall i, (i < b)%N ->
+    List.nth i (log_density_uvr (O:=O) input mean U V R) 0 =
+    log_density (O:=O) (mcol (O:=O) i input) mean (assembled_S (O:=O) U V R).
+Proof.
+move=> uB uS i ib; apply: (uvr_eq_direct bs0) => // t tn.
+by rewrite blk_per_block //; exact: uB.
+Qed.
+
+(* R given as one block shared by all diagonal positions *)
+Lemma uvr_eq_direct_shared (R : M O bs bs) :
+  (R : 'M[F]_bs) \in unitmx ->
+  (assembled_S (O:=O) U V R : 'M[F]_d) \in unitmx ->
+  forall i, (i < b)%N ->
+    List.nth i (log_density_uvr (O:=O) input mean U V R) 0 =
+    log_density (O:=O) (mcol (O:=O) i input) mean (assembled_S (O:=O) U V R).
+Proof.
+move=> uR uS i ib; apply: (uvr_eq_direct bs0) => // t tn.
+by rewrite blk_shared.
+Qed.
+
+(* what "assembled" means, entry by entry *)
+Lemma blockdiag_entry rc (R : M O bs rc) (i j : 'I_d) :
+  (blockdiag (O:=O) d R : 'M[F]_d) i j =
+  if (i %/ bs == j %/ bs)%N
+  then mx_get (blk (tr:=tr) (sq:=sq) (eg:=eg) R (i %/ bs)%N) (i %% bs)%N (j %% bs)%N else 0.
+Proof. by rewrite (blockdiag_BD (tr:=tr) (sq:=sq) (eg:=eg) nb bs0 R) mxE. Qed.
+
+(* the code's inv_R (same side-by-side layout) assembles to the inverse of blockdiag(R) *)
+Lemma blockdiag_inverse rc (R : M O bs rc) :
+  (forall t, (t < nb)%N -> blk (tr:=tr) (sq:=sq) (eg:=eg) R t \in unitmx) ->
+  (blockdiag (O:=O) d R : 'M[F]_d) \in unitmx /\
+  invmx (blockdiag (O:=O) d R : 'M[F]_d) = blockdiag (O:=O) d (uvr_inv_R (O:=O) d nb R).
+Proof.
+move=> uB; split; first exact: (Rd_unit bs0 uB).
+rewrite (Rd_inv bs0 uB) (blockdiag_BD (tr:=tr) (sq:=sq) (eg:=eg) nb bs0 (uvr_inv_R (O:=O) d nb R)).
+apply: BD_ext => t tn; rewrite blk_per_block // /uvr_R_block.
+by rewrite (inv_R_slice (tr:=tr) (sq:=sq) (eg:=eg) bs0 R tn).
+Qed.
+
+Lemma blockdiag_det rc (R : M O bs rc) :
+  \det (blockdiag (O:=O) d R : 'M[F]_d) = uvr_det_R (O:=O) nb R.
+Proof. exact: (Rd_det (tr:=tr) (sq:=sq) (eg:=eg) nb bs0 R). Qed.
+
+(* non-vacuity: identity blocks and U = V = 0 satisfy the premises, for every shape *)
+Lemma premises_example :
+  ((1%:M : 'M[F]_bs) \in unitmx) /\
+  ((assembled_S (O:=O) (0 : 'M[F]_(d,k)) (0 : 'M[F]_(k,d)) (1%:M : 'M[F]_bs) : 'M[F]_d) \in unitmx).
+Proof.
+split; first exact: unitmx1.
+rewrite /assembled_S /= mulmx0 add0r (blockdiag_BD (tr:=tr) (sq:=sq) (eg:=eg) nb bs0 (1%:M : 'M[F]_bs)).
+rewrite (BD_ext (H:=fun _ => 1%:M)) ?BD_1 ?unitmx1 // => t _.
+exact: blk_shared.
+Qed.
+
+End Statements.
+
+Section Definitions.
+Variable F : realFieldType.
+Variable tr : Transc F.
+Variable sq : forall n, 'M[F]_n -> 'M[F]_n.
+Variable eg : forall n, 'M[F]_n -> 'M[F]_(n,1).
+Let O := MxMat tr sq eg.
+Variables (d b k bs rc : nat).
+Variables (input : M O d b) (mean : M O d 1) (cov : M O d d).
+Variables (U : M O d k) (V : M O k d) (R : M O bs rc).
+
+Lemma nth_map_seq (T : Type) (f : nat -> T) n i x0 : (i < n)%N ->
+  List.nth i (List.map f (List.seq 0 n)) x0 = f i.
+Proof.
+move=> lt; rewrite (List.nth_indep _ x0 (f 0%N)); last by rewrite List.map_length List.seq_length; apply/ssrnat.ltP.
+by rewrite List.map_nth List.seq_nth //; apply/ssrnat.ltP.
+Qed.
+
+Lemma log_density_uvr_length : length (log_density_uvr (O:=O) input mean U V R) = b.
+Proof. by rewrite /log_density_uvr List.map_length List.seq_length. Qed.
+
+Lemma log_density_mat_length : length (log_density_mat (O:=O) input mean cov) = b.
+Proof. by rewrite /log_density_mat List.map_length List.seq_length. Qed.
+
+(* density = exp(log-density), entry by entry, same length *)
+Lemma density_uvr_exp i :
+  List.nth i (density_uvr (O:=O) input mean U V R) (t_exp tr 0) =
+  t_exp tr (List.nth i (log_density_uvr (O:=O) input mean U V R) 0).
+Proof. by rewrite /density_uvr (List.map_nth (sexp (sc O))). Qed.
+
+Lemma density_mat_exp i :
+  List.nth i (density_mat (O:=O) input mean cov) (t_exp tr 0) =
+  t_exp tr (List.nth i (log_density_mat (O:=O) input mean cov) 0).
+Proof. by rewrite /density_mat (List.map_nth (sexp (sc O))). Qed.
+
+Lemma density_lengths :
+  length (density_uvr (O:=O) input mean U V R) = b /\ length (density_mat (O:=O) input mean cov) = b.
+Proof.
+by rewrite /density_uvr /density_mat /log_density_uvr /log_density_mat !List.map_length !List.seq_length.
+Qed.
+
+Lemma batch_lengths :
+  length (log_density_uvr (O:=O) input mean U V R) = b /\
+  length (log_density_mat (O:=O) input mean cov) = b /\
+  length (density_uvr (O:=O) input mean U V R) = b /\
+  length (density_mat (O:=O) input mean cov) = b.
+Proof. by rewrite log_density_uvr_length log_density_mat_length; case: density_lengths. Qed.
+
+Lemma sofnat_natr n : sofnat (sc O) n = n%:R.
+Proof.
+rewrite /sofnat /=; case: n => [|n] //=.
+by rewrite SuccNat2Pos.id_succ.
+Qed.
+
+(* the direct form is the textbook expression, per column of the batch *)
+Lemma log_density_mat_def i (lt : (i < b)%N) :
+  let delta := col (Ordinal lt) (input : 'M[F]_(d,b)) - (mean : 'cV[F]_d) in
+  List.nth i (log_density_mat (O:=O) input mean cov) 0 =
+  - 2%:R^-1 * (d%:R * t_ln tr (2%:R * t_pi tr) + t_ln tr (\det (cov : 'M[F]_d))
+               + (delta^T *m invmx (cov : 'M[F]_d) *m delta) 0 0).
+Proof.
+rewrite /log_density_mat nth_map_seq // /log_density /quadform.
+rewrite (mcol_ord tr sq eg _ lt) sofnat_natr /shalf /s2 /=.
+by rewrite div1r -[1 + 1]/(2%:R) (mx_get_ord _ ord0 ord0).
+Qed.
+
+End Definitions.
